@@ -1,6 +1,7 @@
 package main
 
 import (
+	"encoding/json"
 	"fmt"
 	"os"
 	"regexp"
@@ -134,6 +135,13 @@ func checkC08(r *Run) {
 					// constraint reached through a reference to a *named* array/map object
 					r.Violation("validate-misses-violation/via-reference-to-named-collection", fmt.Sprintf("Validate() returns nil although %s violates a %s constraint at %s (reached through %s)", q.Doc, f.Class, strings.Join(f.Path, "."), chain), replay)
 					continue
+				}
+				if docv, err := parseJSONNum(q.Doc); err == nil {
+					if marker := cueDefaultLoss(m.cs.Format, f.Class, rawTag, leafAt(docv, f.Path)); marker != "" {
+						// the constraint is already missing from the IR, wherever the type sits
+						r.Violation("validate-misses-violation/"+marker, fmt.Sprintf("Validate() returns nil although %s violates a %s constraint at %s", q.Doc, f.Class, strings.Join(f.Path, ".")), replay)
+						continue
+					}
 				}
 				r.Violation("validate-misses-violation/"+m.cs.Format+"/"+f.Class+"/"+rawTag+"/"+leafContainer(containerChain(m.cs.AM, m.obj.T, f.Path)), fmt.Sprintf("Validate() returns nil although %s violates a %s constraint at %s", q.Doc, f.Class, strings.Join(f.Path, ".")), replay)
 			} else {
@@ -321,6 +329,25 @@ func faultFieldHasDefault(s *amSchema, root *amType, path []string) bool {
 	}
 	// a reference to an enum / struct whose target declares a default does not count: only the field's own default
 	return false
+}
+
+// cueDefaultLoss names two losses of the CUE loader that do not depend on where the type sits: a string with a
+// default (`strings.MaxRunes(6) | *"d"`) loses its length constraints, and an integer with a default whose lower bound
+// is zero (`int & >=0 & <37 | *12`) loses that bound (CUE rewrites the operand into `uint & <37`, cog reads the type
+// from the whole expression and the constraints from the rewritten operand). "" when neither applies.
+func cueDefaultLoss(format, class, rawTag string, leaf any) string {
+	if format != "cue" || !strings.Contains(rawTag, "+default") {
+		return ""
+	}
+	switch {
+	case class == "length" && strings.Contains(rawTag, "string"):
+		return "cue-default-drops-length-constraints"
+	case class == "bound" && strings.Contains(rawTag, "int"):
+		if n, ok := leaf.(json.Number); ok && string(n) == "-1" {
+			return "cue-default-drops-lower-bound-zero"
+		}
+	}
+	return ""
 }
 
 // leafContainer keeps what matters for validation reach: whether the leaf sits in a collection.
